@@ -18,6 +18,7 @@ or after blanks; everything else is literal Verus text):
      @before `ANCHOR` [#k] ... @end   lines inserted before the anchor's line
      @after `ANCHOR` [#k] ... @end    lines inserted after the anchor's last line
      @bodyend `ANCHOR` [#k] ... @end  lines inserted before the `}` closing the first block opened after the anchor
+     @bodystart ... @end              lines inserted right after the `{` opening the function body
      @replace `OLD` `NEW` [#k] class=N0|N2|...   logged normalisation
      @outline `EXPR` `CALL` [#k]      logged assumption (expression left unverified)
      @n1 `for (i, x) in E.enumerate()` [#k]   enumerate → counter
@@ -502,6 +503,22 @@ def _do_extract(raw, i, unitfile, repo_root, out, log, meta, twin=False):
                 else:
                     li, _ = item._line_index(e - 1)
                     item.insert_lines(li + 1, copy)
+        elif dname == "bodystart":
+            # @bodystart ... @end : lines inserted right after the `{` that opens the body of the (scoped) function --
+            # an anchor that no edit of the body can move
+            block, i = parse_block(raw, i + 1, unitfile, HINT)
+            hint_lines.extend((bl, item.scope) for bl in block)
+            lo, hi = item._scope_span()
+            mt3 = mask(item.joined())
+            f3 = re.compile(r"\bfn\b").search(mt3, lo, hi)
+            b3 = item.repo_top_level(mt3, "{", f3.start())
+            if b3 < 0:
+                raise ExtractError(f"@bodystart: fn without body in {ex.describe()}")
+            lb3, cb3 = item._line_index(b3)
+            l3 = item.lines[lb3]
+            rest = l3.text[cb3 + 1:]
+            l3.text = l3.text[:cb3 + 1]
+            item.lines[lb3 + 1:lb3 + 1] = block + ([Line(rest, l3.origin)] if rest.strip() else [])
         elif dname == "bodyend":
             block, i = parse_block(raw, i + 1, unitfile, HINT)
             hint_lines.extend((bl, item.scope) for bl in block)
